@@ -857,7 +857,9 @@ def apply(rep, pid, files, tier):
     if not units:
         return
     try:
-        prog = ir.Program(units, cdb.HOST)
+        # these rules go by per-function summaries and reference tables of the pinned tree's functions: the view without the
+        # inlining of new helpers (a helper is followed through its own summary)
+        prog = ir.Program(units, cdb.HOST, inline_helpers=False)
     except cdb.AnalysisBroken:
         raise
     except Exception:
